@@ -441,3 +441,1170 @@ Lemma ev_pairs_cons ctx here p r s k :
 Proof. destruct p; reflexivity. Qed.
 
 End Ev.
+
+
+(* ================================================================== Part 3: agreement of two results *)
+(* both succeed -> same value, same state (trace and allocation count) *)
+Definition ragree (r1 r2 : result) : Prop :=
+  forall v1 s1 v2 s2, r1 = Done v1 s1 -> r2 = Done v2 s2 -> v1 = v2 /\ s1 = s2.
+
+Lemma ragree_refl r : ragree r r.
+Proof. intros v1 s1 v2 s2 E1 E2. rewrite E1 in E2. inversion E2. auto. Qed.
+
+Lemma ragree_stop_l e l s r : ragree (Stop e l s) r.
+Proof. intros v1 s1 v2 s2 E1 E2. discriminate. Qed.
+
+Lemma ragree_stop_r e l s r : ragree r (Stop e l s).
+Proof. intros v1 s1 v2 s2 E1 E2. discriminate. Qed.
+
+Lemma ragree_done v s : ragree (Done v s) (Done v s).
+Proof. apply ragree_refl. Qed.
+
+Lemma ragree_rbind_rel (R : value -> value -> Prop) r1 r2 k1 k2 :
+  (forall v1 s1 v2 s2, r1 = Done v1 s1 -> r2 = Done v2 s2 -> s1 = s2 /\ R v1 v2) ->
+  (forall v1 v2 s, R v1 v2 -> ragree (k1 v1 s) (k2 v2 s)) ->
+  ragree (rbind r1 k1) (rbind r2 k2).
+Proof.
+  intros H Hk v1 s1 v2 s2 E1 E2.
+  destruct r1 as [va sa|]; [|discriminate]. destruct r2 as [vb sb|]; [|discriminate].
+  cbn [rbind] in E1, E2. destruct (H va sa vb sb eq_refl eq_refl) as [Es HR]. subst sb.
+  exact (Hk va vb sa HR v1 s1 v2 s2 E1 E2).
+Qed.
+
+Lemma ragree_rbind r1 r2 k1 k2 :
+  ragree r1 r2 -> (forall v s, ragree (k1 v s) (k2 v s)) -> ragree (rbind r1 k1) (rbind r2 k2).
+Proof.
+  intros H Hk. apply ragree_rbind_rel with (R := eq).
+  - intros v1 s1 v2 s2 E1 E2. destruct (H _ _ _ _ E1 E2). auto.
+  - intros v1 v2 s ->. apply Hk.
+Qed.
+
+Lemma ragree_lift {A} l1 l2 s (o : outcome A) k1 k2 :
+  (forall a, ragree (k1 a) (k2 a)) -> ragree (lift l1 s o k1) (lift l2 s o k2).
+Proof. intros H. destruct o; cbn [lift]; [apply H|apply ragree_stop_l]. Qed.
+
+Lemma ragree_lift_eq {A} l1 l2 s (o : outcome A) k1 k2 :
+  (forall a, o = Ok a -> ragree (k1 a) (k2 a)) -> ragree (lift l1 s o k1) (lift l2 s o k2).
+Proof. intros H. destruct o; cbn [lift]; [apply H; reflexivity|apply ragree_stop_l]. Qed.
+
+Lemma ragree_alloc cfg1 cfg2 l1 l2 n s k1 k2 :
+  c_limit cfg1 = c_limit cfg2 -> (forall s', ragree (k1 s') (k2 s')) ->
+  ragree (alloc cfg1 l1 n s k1) (alloc cfg2 l2 n s k2).
+Proof.
+  intros Hl H. unfold alloc. rewrite Hl. destruct (c_limit cfg2 <=? r_mem s + n); [apply ragree_stop_l|apply H].
+Qed.
+
+Section LoopAgree.
+Variables b1 b2 : Z -> rstate -> result.
+Hypothesis Hb : forall i s, ragree (b1 i s) (b2 i s).
+Variables l1 l2 : loc.
+
+Lemma all_loop_agree n : forall i s, ragree (all_loop b1 l1 n i s) (all_loop b2 l2 n i s).
+Proof.
+  induction n as [|n IH]; intros i s; cbn [all_loop]; [apply ragree_refl|].
+  apply ragree_rbind; [apply Hb|]. intros v s1. apply ragree_lift. intros b. destruct b; [apply IH|apply ragree_refl].
+Qed.
+
+Lemma none_loop_agree n : forall i s, ragree (none_loop b1 l1 n i s) (none_loop b2 l2 n i s).
+Proof.
+  induction n as [|n IH]; intros i s; cbn [none_loop]; [apply ragree_refl|].
+  apply ragree_rbind; [apply Hb|]. intros v s1. apply ragree_lift. intros b. destruct b; [apply ragree_refl|apply IH].
+Qed.
+
+Lemma any_loop_agree n : forall i s, ragree (any_loop b1 l1 n i s) (any_loop b2 l2 n i s).
+Proof.
+  induction n as [|n IH]; intros i s; cbn [any_loop]; [apply ragree_refl|].
+  apply ragree_rbind; [apply Hb|]. intros v s1. apply ragree_lift. intros b. destruct b; [apply ragree_refl|apply IH].
+Qed.
+
+Lemma count_loop_agree n : forall i c s k1 k2, (forall c' s', ragree (k1 c' s') (k2 c' s')) ->
+  ragree (count_loop b1 l1 n i c s k1) (count_loop b2 l2 n i c s k2).
+Proof.
+  induction n as [|n IH]; intros i c s k1 k2 Hk; cbn [count_loop]; [apply Hk|].
+  apply ragree_rbind; [apply Hb|]. intros v s1. apply ragree_lift. intros b. apply IH. exact Hk.
+Qed.
+
+Lemma filter_loop_agree elem n : forall i acc s k1 k2, (forall xs s', ragree (k1 xs s') (k2 xs s')) ->
+  ragree (filter_loop b1 l1 elem n i acc s k1) (filter_loop b2 l2 elem n i acc s k2).
+Proof.
+  induction n as [|n IH]; intros i acc s k1 k2 Hk; cbn [filter_loop]; [apply Hk|].
+  apply ragree_rbind; [apply Hb|]. intros v s1. apply ragree_lift. intros b. destruct b.
+  - apply ragree_lift. intros x. apply IH. exact Hk.
+  - apply IH. exact Hk.
+Qed.
+
+Lemma map_loop_agree n : forall i acc s k1 k2, (forall xs s', ragree (k1 xs s') (k2 xs s')) ->
+  ragree (map_loop b1 n i acc s k1) (map_loop b2 n i acc s k2).
+Proof.
+  induction n as [|n IH]; intros i acc s k1 k2 Hk; cbn [map_loop]; [apply Hk|].
+  apply ragree_rbind; [apply Hb|]. intros v s1. apply IH. exact Hk.
+Qed.
+End LoopAgree.
+
+
+(* ================================================================== Part 4: literal-only arithmetic trees *)
+(* a number "of kind k" as integer literals produce it: NFlt for the float kinds, NInt for the others *)
+Definition num_shape (k : kind) (n : num) : Prop :=
+  match n with
+  | NInt k' _ => k' = k /\ is_float k = false
+  | NFlt k' _ => k' = k /\ is_float k = true
+  end.
+
+Lemma num_shape_kind k n : num_shape k n -> num_kind n = k.
+Proof. destruct n; cbn; intros [H _]; exact H. Qed.
+
+(* the value of a literal, by its effective kind *)
+Definition canon (k : kind) (z : Z) : value :=
+  if kind_eqb k KInt then vint z
+  else if is_float k then VNum (NFlt k (fround k (f_of_Z z))) else VNum (NInt k (wrap k z)).
+
+Lemma int_const_canon a z : lit_range_ok a z = true -> int_const a z = canon (eff_kind a) z.
+Proof.
+  unfold lit_range_ok, int_const, eff_kind, canon. intros H.
+  destruct (akind a) as [| |k| | | | | | | |]; try reflexivity.
+  destruct k; try reflexivity. cbn [kind_eqb kind_idx Z.eqb is_float].
+  rewrite wrap_in_range by (auto; reflexivity). reflexivity.
+Qed.
+
+Lemma canon_shape k z : exists n, canon k z = VNum n /\ num_shape k n.
+Proof.
+  unfold canon. destruct (kind_eqb k KInt) eqn:E.
+  - apply kind_eqb_eq in E. subst k. eexists; split; [reflexivity|]. cbn. auto.
+  - destruct (is_float k) eqn:F; eexists; (split; [reflexivity|]); cbn; auto.
+Qed.
+
+Lemma go_neg_shape k n : num_shape k n -> num_shape k (go_neg n).
+Proof. destruct n; cbn; auto. Qed.
+
+Definition arith_helper (h : helper) : bool :=
+  match h with HAdd | HSubtract | HMultiply | HDivide => true | _ => false end.
+
+(* the generated table on two operands of one and the same kind: no conversion, Go's operator *)
+Lemma helper_case_same h k : arith_helper h = true -> helper_case h k k = Some (None, None, helper_op h).
+Proof. intros H. destruct h; try discriminate H; destruct k; reflexivity. Qed.
+
+Lemma arith_helper_shape h k n1 n2 v :
+  arith_helper h = true -> num_shape k n1 -> num_shape k n2 ->
+  p_helper h (VNum n1) (VNum n2) = Ok v -> exists n, v = VNum n /\ num_shape k n.
+Proof.
+  intros Hh S1 S2. unfold p_helper, helper_num.
+  rewrite (num_shape_kind _ _ S1), (num_shape_kind _ _ S2), (helper_case_same _ _ Hh).
+  cbn [conv_opt].
+  destruct n1 as [k1 x|k1 x], n2 as [k2 y|k2 y]; cbn [num_shape] in S1, S2;
+    destruct S1 as [-> F1]; destruct S2 as [E2 F2]; subst; try congruence.
+  - unfold go_op. rewrite kind_eqb_refl. cbn [negb].
+    destruct h; try discriminate Hh; cbn [helper_op of_nres].
+    1-3: intros E; inversion E; eexists; split; [reflexivity|cbn; auto].
+    destruct (y =? 0); cbn [of_nres]; [discriminate|].
+    intros E; inversion E; eexists; split; [reflexivity|cbn; auto].
+  - unfold go_op. rewrite kind_eqb_refl. cbn [negb].
+    destruct h; try discriminate Hh; cbn [helper_op of_nres];
+    intros E; inversion E; eexists; split; try reflexivity; cbn; auto.
+Qed.
+
+Definition helper_of (op : binop) : helper :=
+  match op with BAdd => HAdd | BSub => HSubtract | BMul => HMultiply | _ => HDivide end.
+
+Lemma bin_strict_arith fe cfg here op l r va vb s :
+  arith_bin op = true ->
+  bin_strict fe cfg here op l r va vb s = lift here s (p_helper (helper_of op) va vb) (fun v => Done v s).
+Proof. destruct op; try discriminate; reflexivity. Qed.
+
+Lemma helper_of_arith op : arith_bin op = true -> arith_helper (helper_of op) = true.
+Proof. destruct op; try discriminate; reflexivity. Qed.
+
+Lemma arith_not_lazy op : arith_bin op = true -> is_or op = false /\ is_and op = false.
+Proof. destruct op; try discriminate; auto. Qed.
+
+(* a literal-only tree of kind k evaluates, when it succeeds, to a number of kind k; no effect *)
+Lemma uniform_eval fe cfg env k : forall x, uniform k x = true ->
+  forall ctx s v s', eval fe cfg env ctx x s = Done v s' -> s' = s /\ exists n, v = VNum n /\ num_shape k n.
+Proof.
+  induction x as [| | a z | | | | |a op x IHx|a op l IHl r IHr| | | | | | | | | | | | | ]; intros U; try discriminate U;
+    intros ctx s v s' E.
+  - cbn [uniform] in U. apply andb_prop in U. destruct U as [Uk Ur]. apply kind_eqb_eq in Uk.
+    rewrite ev_int in E. inversion E; subst. split; [reflexivity|].
+    rewrite (int_const_canon _ _ Ur). apply canon_shape.
+  - cbn [uniform] in U. apply andb_prop in U. destruct U as [Uo Ux].
+    rewrite ev_unary in E. destruct (eval fe cfg env ctx x s) as [vx sx|] eqn:Ex; [|discriminate].
+    cbn [rbind] in E. destruct (IHx Ux _ _ _ _ Ex) as [-> (n & -> & Sn)].
+    destruct op; try discriminate Uo.
+    + inversion E; subst. split; [reflexivity|]. eauto.
+    + cbn in E. inversion E; subst. split; [reflexivity|]. eexists; split; [reflexivity|]. apply go_neg_shape; auto.
+  - cbn [uniform] in U. apply andb_prop in U. destruct U as [U Ur]. apply andb_prop in U. destruct U as [Uo Ul].
+    rewrite ev_binary in E. destruct (arith_not_lazy _ Uo) as [Oo Oa]. rewrite Oo, Oa in E.
+    destruct (eval fe cfg env ctx l s) as [vl sl|] eqn:El; [|discriminate]. cbn [rbind] in E.
+    destruct (IHl Ul _ _ _ _ El) as [-> (n1 & -> & S1)].
+    destruct (eval fe cfg env ctx r s) as [vr sr|] eqn:Er; [|discriminate]. cbn [rbind] in E.
+    destruct (IHr Ur _ _ _ _ Er) as [-> (n2 & -> & S2)].
+    rewrite bin_strict_arith in E by auto.
+    destruct (p_helper (helper_of op) (VNum n1) (VNum n2)) as [w|] eqn:Ew; [|discriminate].
+    cbn [lift] in E. inversion E; subst. split; [reflexivity|].
+    eapply (arith_helper_shape (helper_of op) k n1 n2); [apply helper_of_arith; exact Uo|exact S1|exact S2|exact Ew].
+Qed.
+
+(* two literal-only trees of one source with the same kind evaluate alike, whatever the mode *)
+Lemma erase_ann_loc a1 a2 : erase_ann a1 = erase_ann a2 -> aloc a1 = aloc a2.
+Proof. unfold erase_ann. intros H. inversion H. reflexivity. Qed.
+
+Lemma uniform_same fe cfg1 env1 cfg2 env2 k : forall x1 x2, erase x1 = erase x2 ->
+  uniform k x1 = true -> uniform k x2 = true ->
+  forall ctx s, eval fe cfg1 env1 ctx x1 s = eval fe cfg2 env2 ctx x2 s.
+Proof.
+  induction x1 as [| | a z | | | | |a op x IHx|a op l IHl r IHr| | | | | | | | | | | | | ]; intros x2 E U1; try discriminate U1;
+    intros U2 ctx s; destruct x2 as [| | a' z' | | | | |a' op' x'|a' op' l' r'| | | | | | | | | | | | | ];
+    try discriminate E; try discriminate U2; cbn [erase] in E.
+  - injection E as Ea Ez. subst z'.
+    cbn [uniform] in U1, U2. apply andb_prop in U1. destruct U1 as [K1 R1]. apply andb_prop in U2. destruct U2 as [K2 R2].
+    apply kind_eqb_eq in K1. apply kind_eqb_eq in K2.
+    rewrite !ev_int, (int_const_canon _ _ R1), (int_const_canon _ _ R2), K1, K2. reflexivity.
+  - injection E as Ea Eo Ex. subst op'.
+    cbn [uniform] in U1, U2. apply andb_prop in U1. destruct U1 as [O1 X1]. apply andb_prop in U2. destruct U2 as [O2 X2].
+    rewrite !ev_unary. rewrite (IHx _ Ex X1 X2), Ea. reflexivity.
+  - injection E as Ea Eo El Er. subst op'.
+    cbn [uniform] in U1, U2.
+    apply andb_prop in U1. destruct U1 as [U1 Rr1]. apply andb_prop in U1. destruct U1 as [O1 L1].
+    apply andb_prop in U2. destruct U2 as [U2 Rr2]. apply andb_prop in U2. destruct U2 as [O2 L2].
+    rewrite !ev_binary. destruct (arith_not_lazy _ O1) as [Oo Oa]. rewrite Oo, Oa.
+    rewrite (IHl _ El L1 L2), Ea.
+    destruct (eval fe cfg2 env2 ctx l' s) as [va s1|]; cbn [rbind]; [|reflexivity].
+    rewrite (IHr _ Er Rr1 Rr2).
+    destruct (eval fe cfg2 env2 ctx r' s1) as [vb s2|]; cbn [rbind]; [|reflexivity].
+    rewrite !bin_strict_arith by auto. reflexivity.
+Qed.
+
+
+(* ================================================================== Part 5: classification of arguments *)
+Lemma lit_shape_erase : forall e, lit_shape (erase e) = lit_shape e.
+Proof.
+  induction e as [| |a z| | | | |a op x IHx|a op l IHl r IHr| | | | | | | | | | | | | ]; try reflexivity; cbn [erase lit_shape].
+  - rewrite IHx. reflexivity.
+  - rewrite IHl, IHr. reflexivity.
+Qed.
+
+Lemma uniform_lit_shape k : forall e, uniform k e = true -> lit_shape e = true.
+Proof.
+  induction e as [| |a z| | | | |a op x IHx|a op l IHl r IHr| | | | | | | | | | | | | ]; intros U; try discriminate U; cbn [uniform lit_shape] in *.
+  - reflexivity.
+  - apply andb_prop in U. destruct U as [-> U]. cbn [andb]. auto.
+  - apply andb_prop in U. destruct U as [U Ur]. apply andb_prop in U. destruct U as [-> Ul].
+    rewrite IHl, IHr by auto. reflexivity.
+Qed.
+
+Lemma wf_lit_uniform : forall e, lit_shape e = true -> wf e = true -> uniform KInt e = true.
+Proof.
+  induction e as [| |a z| | | | |a op x IHx|a op l IHl r IHr| | | | | | | | | | | | | ]; intros L W; try discriminate L; cbn [uniform lit_shape wf] in *.
+  - exact W.
+  - apply andb_prop in L. destruct L as [-> L]. cbn [andb]. auto.
+  - apply andb_prop in L. destruct L as [L Lr]. apply andb_prop in L. destruct L as [-> Ll].
+    apply andb_prop in W. destruct W as [Wl Wr]. rewrite IHl, IHr by auto. reflexivity.
+Qed.
+
+Lemma retyped_kind_inv x k : retyped_kind x = Some k -> k <> KInt /\ uniform k x = true.
+Proof.
+  unfold retyped_kind. destruct (first_lit x) as [k'|]; [|discriminate].
+  destruct (negb (kind_eqb k' KInt) && uniform k' x) eqn:E; [|discriminate].
+  intros H. inversion H; subst. apply andb_prop in E. destruct E as [E1 E2]. split; [|exact E2].
+  apply negb_true_iff in E1. apply kind_eqb_neq in E1. exact E1.
+Qed.
+
+Definition arg_valid (x : expr) : bool := wf x || is_some (retyped_kind x).
+
+(* a valid argument that is a literal-only tree has ONE kind; it is a call site unless the kind is int *)
+Lemma class_uniform x : arg_valid x = true -> lit_shape x = true ->
+  exists k, uniform k x = true /\ (k <> KInt -> arg_class x = Some k).
+Proof.
+  unfold arg_valid, arg_class. intros V L. destruct (wf x) eqn:W.
+  - exists KInt. split; [apply wf_lit_uniform; auto|congruence].
+  - cbn [orb] in V. destruct (retyped_kind x) as [k|] eqn:R; [|discriminate].
+    destruct (retyped_kind_inv _ _ R) as [Hk U]. exists k. auto.
+Qed.
+
+Lemma not_wf_lit_shape x : arg_valid x = true -> wf x = false -> lit_shape x = true.
+Proof.
+  unfold arg_valid. intros V W. rewrite W in V. cbn [orb] in V.
+  destruct (retyped_kind x) as [k|] eqn:R; [|discriminate].
+  destruct (retyped_kind_inv _ _ R) as [_ U]. eapply uniform_lit_shape; eauto.
+Qed.
+
+(* ---- reflect.Call's pairing of arguments and parameters ---- *)
+Lemma slice1_dec (p : ty) (ins : list ty) : (exists e, p :: ins = [TSlice e]) \/ (forall e, p :: ins <> [TSlice e]).
+Proof.
+  destruct ins as [|q r]; [|right; intros e H; discriminate H].
+  destruct p; try (right; intros e' H; discriminate H). left. eexists; reflexivity.
+Qed.
+
+Lemma args_ok_cons p ins var a vs : (forall e, p :: ins <> [TSlice e]) ->
+  args_ok (p :: ins) var (a :: vs) =
+  (match a with VNil => assignable TIface p | _ => assignable (dyn_type a) p end) && args_ok ins var vs.
+Proof.
+  intros H. destruct p; try reflexivity. destruct ins; [exfalso; eapply H; reflexivity|reflexivity].
+Qed.
+
+Lemma args_ok_cons_nil p ins var : (forall e, p :: ins <> [TSlice e]) -> args_ok (p :: ins) var [] = false.
+Proof.
+  intros H. destruct p; try reflexivity. destruct ins; [exfalso; eapply H; reflexivity|reflexivity].
+Qed.
+
+Lemma param_at_cons p ins var j : (forall e, p :: ins <> [TSlice e]) ->
+  param_at (p :: ins) var j = match j with O => Some p | S j' => param_at ins var j' end.
+Proof.
+  intros H. destruct p; try reflexivity. destruct ins; [exfalso; eapply H; reflexivity|reflexivity].
+Qed.
+
+Lemma args_ok_param : forall ins var vs, args_ok ins var vs = true ->
+  forall j n, nth_error vs j = Some (VNum n) ->
+  exists p, param_at ins var j = Some p /\ assignable (TNum (num_kind n)) p = true.
+Proof.
+  induction ins as [|p ins IH]; intros var vs A j n N.
+  - destruct vs; [destruct j; discriminate N|discriminate A].
+  - destruct (slice1_dec p ins) as [[e E]|NE].
+    + inversion E; subst. cbn [args_ok] in A. cbn [param_at]. destruct var.
+      * exists e. split; [reflexivity|]. apply nth_error_In in N.
+        rewrite forallb_forall in A. apply (A _ N).
+      * destruct vs as [|a [|b r]]; try discriminate A.
+        destruct j as [|j]; [|destruct j; discriminate N]. cbn in N. inversion N; subst.
+        exists (TSlice e). split; [reflexivity|exact A].
+    + destruct vs as [|a vs]; [rewrite args_ok_cons_nil in A by auto; discriminate|].
+      rewrite args_ok_cons in A by auto. apply andb_prop in A. destruct A as [A1 A2].
+      rewrite param_at_cons by auto. destruct j as [|j].
+      * cbn in N. inversion N; subst. exists p. split; [reflexivity|exact A1].
+      * cbn in N. eapply IH; eauto.
+Qed.
+
+Lemma param_at_fast j : param_at [TSlice TIface] true j = Some TIface.
+Proof. reflexivity. Qed.
+
+Lemma assignable_num k1 k2 : assignable (TNum k1) (TNum k2) = true -> k1 = k2.
+Proof. unfold assignable. cbn. rewrite orb_false_r. apply kind_eqb_eq. Qed.
+
+(* ---- values of the two argument lists ---- *)
+Section Vals.
+Variables S1 S2 : nat -> kind -> Prop.   (* retyped sites of side 1 / side 2, by position *)
+
+Definition nrel (i : nat) (v1 v2 : value) : Prop :=
+  v1 = v2 \/
+  exists n1 n2, v1 = VNum n1 /\ v2 = VNum n2 /\ num_kind n1 <> num_kind n2 /\
+    (num_kind n1 <> KInt -> S1 i (num_kind n1)) /\ (num_kind n2 <> KInt -> S2 i (num_kind n2)).
+
+Fixpoint vals_rel (i : nat) (vs1 vs2 : list value) : Prop :=
+  match vs1, vs2 with
+  | [], [] => True
+  | v1 :: r1, v2 :: r2 => nrel i v1 v2 /\ vals_rel (S i) r1 r2
+  | _, _ => False
+  end.
+
+Variable param : nat -> option ty.
+Definition accepts (i : nat) (vs : list value) : Prop :=
+  forall j n, nth_error vs j = Some (VNum n) -> exists p, param (i + j)%nat = Some p /\ assignable (TNum (num_kind n)) p = true.
+
+Hypothesis P1 : forall j k, S1 j k -> param j = Some (TNum k).
+Hypothesis P2 : forall j k, S2 j k -> param j = Some (TNum k).
+
+Lemma accepts_tail i v vs : accepts i (v :: vs) -> accepts (S i) vs.
+Proof.
+  intros A j n N. destruct (A (S j) n N) as (p & Hp & Ha). exists p. split; [|exact Ha].
+  rewrite <- Hp. f_equal. lia.
+Qed.
+
+Lemma vals_rel_eq : forall vs1 vs2 i, vals_rel i vs1 vs2 -> accepts i vs1 -> accepts i vs2 -> vs1 = vs2.
+Proof.
+  induction vs1 as [|v1 r1 IH]; intros [|v2 r2] i R A1 A2; cbn [vals_rel] in R; try contradiction; [reflexivity|].
+  destruct R as [R0 R]. f_equal; [|eapply IH; eauto using accepts_tail].
+  destruct R0 as [E|(n1 & n2 & -> & -> & Hne & H1 & H2)]; [exact E|exfalso].
+  destruct (A1 O n1 eq_refl) as (p1 & Hp1 & Ha1). destruct (A2 O n2 eq_refl) as (p2 & Hp2 & Ha2).
+  rewrite Nat.add_0_r in Hp1, Hp2.
+  destruct (kind_eqb (num_kind n1) KInt) eqn:K1.
+  - apply kind_eqb_eq in K1. assert (K2 : num_kind n2 <> KInt) by congruence.
+    specialize (P2 _ _ (H2 K2)). rewrite P2 in Hp1. inversion Hp1; subst p1.
+    apply assignable_num in Ha1. congruence.
+  - apply kind_eqb_neq in K1. specialize (P1 _ _ (H1 K1)). rewrite P1 in Hp2. inversion Hp2; subst p2.
+    apply assignable_num in Ha2. congruence.
+Qed.
+End Vals.
+
+(* ---- a successful call ---- *)
+Lemma do_call_done fe l fast id recv args s v s' :
+  do_call fe l fast id recv args s = Done v s' ->
+  exists sg, fn_sig fe id = Some sg /\
+    (if fast then s_fast sg = true else args_ok (s_ins sg) (s_variadic sg) args = true) /\
+    fn_run fe id recv args = Ok v /\ s' = log_call s id args.
+Proof.
+  unfold do_call. destruct (fn_sig fe id) as [sg|]; [|discriminate]. intros H. exists sg. split; [reflexivity|].
+  destruct fast.
+  - destruct (s_fast sg); [|discriminate]. destruct (fn_run fe id recv args); [|discriminate].
+    inversion H; subst. auto.
+  - destruct (args_ok (s_ins sg) (s_variadic sg) args); [|discriminate].
+    destruct (fn_run fe id recv args); [|discriminate]. destruct (s_nout sg =? 0); [discriminate|].
+    inversion H; subst. auto.
+Qed.
+
+Lemma call_agree fe (S1 S2 : nat -> kind -> Prop) l1 l2 fast1 fast2 id recv1 recv2 vs1 vs2 s :
+  fast_sound fe ->
+  vals_rel S1 S2 0 vs1 vs2 ->
+  (forall j k sg, S1 j k -> fn_sig fe id = Some sg -> param_at (s_ins sg) (s_variadic sg) j = Some (TNum k)) ->
+  (forall j k sg, S2 j k -> fn_sig fe id = Some sg -> param_at (s_ins sg) (s_variadic sg) j = Some (TNum k)) ->
+  (forall args, fn_run fe id recv1 args = fn_run fe id recv2 args) ->
+  ragree (do_call fe l1 fast1 id recv1 vs1 s) (do_call fe l2 fast2 id recv2 vs2 s).
+Proof.
+  intros HF R P1 P2 Hrun v1 s1 v2 s2 E1 E2.
+  apply do_call_done in E1. destruct E1 as (sg & Hsg & C1 & R1 & ->).
+  apply do_call_done in E2. destruct E2 as (sg' & Hsg' & C2 & R2 & ->).
+  rewrite Hsg in Hsg'. inversion Hsg'; subst sg'.
+  assert (A : forall (fast : bool) vs, (if fast then s_fast sg = true else args_ok (s_ins sg) (s_variadic sg) vs = true) ->
+              accepts (param_at (s_ins sg) (s_variadic sg)) 0 vs).
+  { intros fast vs C j n N. cbn [Nat.add]. destruct fast.
+    - destruct (HF _ _ Hsg C) as [Hi Hv]. rewrite Hi, Hv. exists TIface. split; [reflexivity|].
+      unfold assignable. apply orb_true_r.
+    - eapply args_ok_param; eauto. }
+  assert (E : vs1 = vs2).
+  { eapply (vals_rel_eq S1 S2 (param_at (s_ins sg) (s_variadic sg))); eauto. }
+  subst vs2. rewrite Hrun in R1. rewrite R1 in R2. inversion R2. auto.
+Qed.
+
+
+(* ================================================================== Part 6: the induction *)
+Lemma lsize_in x : forall l, In x l -> (esize x <= lsize l)%nat.
+Proof.
+  induction l as [|y r IH]; intros H; [destruct H|]. cbn [lsize]. destruct H as [<-|H]; [lia|]. specialize (IH H). lia.
+Qed.
+
+Lemma Forall_flat_map_in {A B} (Q : B -> Prop) (f : A -> list B) l x :
+  Forall Q (flat_map f l) -> In x l -> Forall Q (f x).
+Proof.
+  induction l as [|y r IH]; intros F H; [destruct H|]. cbn [flat_map] in F. apply Forall_app in F. destruct F as [F1 F2].
+  destruct H as [<-|H]; auto.
+Qed.
+
+Lemma arg_sites_in m name : forall l i j x k, nth_error l j = Some x -> arg_class x = Some k ->
+  In (mkSite m name (i + j) k) (arg_sites m name l i).
+Proof.
+  induction l as [|y r IH]; intros i j x k N C; [destruct j; discriminate N|].
+  cbn [arg_sites]. apply in_or_app. destruct j as [|j].
+  - cbn in N. inversion N; subst. left. rewrite C. rewrite Nat.add_0_r. left; reflexivity.
+  - right. cbn in N. replace (i + S j)%nat with (S i + j)%nat by lia. eapply IH; eauto.
+Qed.
+
+Lemma beq_done fe cfg here l r va vb s v s' :
+  bin_strict fe cfg here BEq l r va vb s = Done v s' -> p_equal va vb = Ok v /\ s' = s.
+Proof.
+  cbn [bin_strict]. intros H.
+  assert (G : lift here s (p_equal va vb) (fun w => Done w s) = Done v s').
+  { destruct (both_kind (RKNum KInt) l r); [apply eq_specialised_agrees; left; exact H|].
+    destruct (both_kind RKString l r); [apply eq_specialised_agrees; right; exact H|exact H]. }
+  destruct (p_equal va vb); [|discriminate G]. cbn [lift] in G. inversion G. auto.
+Qed.
+
+Lemma method_match_agree (ns : bool) (v : value) s A B :
+  ragree A B ->
+  ragree (match ns, v with true, VNil => Done VNil s | _, _ => A end)
+         (match ns, v with true, VNil => Done VNil s | _, _ => B end).
+Proof. intros H. destruct ns; [destruct v|]; auto using ragree_refl. Qed.
+
+Ltac ra1 :=
+  first [ apply ragree_stop_l
+        | apply ragree_stop_r
+        | match goal with |- ragree ?a ?b => constr_eq a b; apply ragree_refl end
+        | apply ragree_lift; intros ? ].
+Ltac ra := repeat ra1.
+
+Section Agree.
+Variable fe : fenv.
+Variables cfg1 cfg2 : config.
+Variables env1 env2 : value.
+Hypothesis Hlim : c_limit cfg1 = c_limit cfg2.
+Hypothesis Hid : forall name ns v1 v2,
+  fetch_ident cfg1 env1 name ns = Ok v1 -> fetch_ident cfg2 env2 name ns = Ok v2 -> v1 = v2.
+Hypothesis Hfn : forall name id1 id2, fetch_fn fe env1 name = Ok id1 -> fetch_fn fe env2 name = Ok id2 -> id1 = id2.
+Hypothesis Hrun : forall name id args,
+  fetch_fn fe env1 name = Ok id -> fetch_fn fe env2 name = Ok id -> fn_run fe id env1 args = fn_run fe id env2 args.
+Hypothesis Hfast : fast_sound fe.
+
+Notation ev1 := (eval fe cfg1 env1).
+Notation ev2 := (eval fe cfg2 env2).
+
+Definition agree (e1 e2 : expr) : Prop := forall ctx s, ragree (ev1 ctx e1 s) (ev2 ctx e2 s).
+Definition P (e1 : expr) : Prop := forall e2, same_shape e1 e2 -> ok fe env1 e1 -> ok fe env2 e2 -> agree e1 e2.
+
+Lemma bin_strict_agree here1 here2 op l1 r1 l2 r2 va vb s :
+  ragree (bin_strict fe cfg1 here1 op l1 r1 va vb s) (bin_strict fe cfg2 here2 op l2 r2 va vb s).
+Proof.
+  destruct op; try (cbn [bin_strict]; ra; fail).
+  - intros v1 s1 v2 s2 E1 E2. apply beq_done in E1. apply beq_done in E2.
+    destruct E1 as [E1 ->]. destruct E2 as [E2 ->]. rewrite E1 in E2. inversion E2. auto.
+  - cbn [bin_strict]. ra. destruct (range_size a a0); [|ra]. apply ragree_alloc; [exact Hlim|]. intros s'. ra.
+Qed.
+
+Lemma ev_list_agree ctx : forall l1 l2, map erase l1 = map erase l2 ->
+  (forall x, In x l1 -> P x) -> (forall x, In x l1 -> ok fe env1 x) -> (forall x, In x l2 -> ok fe env2 x) ->
+  forall s k1 k2, (forall vs s', ragree (k1 vs s') (k2 vs s')) ->
+  ragree (ev_list fe cfg1 env1 ctx l1 s k1) (ev_list fe cfg2 env2 ctx l2 s k2).
+Proof.
+  induction l1 as [|x1 r1 IH]; intros [|x2 r2] E HP O1 O2 s k1 k2 Hk; try discriminate E.
+  - apply Hk.
+  - cbn [map] in E. injection E as Ex Er. rewrite !ev_list_cons. apply ragree_rbind.
+    + apply (HP x1 (or_introl eq_refl) x2 Ex); [apply O1|apply O2]; left; reflexivity.
+    + intros v s1. apply IH;
+        [exact Er | intros x Hx; apply HP; right; exact Hx | intros x Hx; apply O1; right; exact Hx
+        | intros x Hx; apply O2; right; exact Hx | intros vs s'; apply Hk].
+Qed.
+
+Lemma ok_pair_inv env a k v : ok fe env (EPair a k v) -> ok fe env k /\ ok fe env v.
+Proof.
+  unfold ok. cbn [wf sites]. rewrite andb_true_iff, Forall_app. tauto.
+Qed.
+
+Lemma ev_pairs_agree ctx here1 here2 : forall l1 l2, map erase l1 = map erase l2 ->
+  (forall a k v, In (EPair a k v) l1 -> P k /\ P v) ->
+  (forall x, In x l1 -> ok fe env1 x) -> (forall x, In x l2 -> ok fe env2 x) ->
+  forall s k1 k2, (forall kvs s', ragree (k1 kvs s') (k2 kvs s')) ->
+  ragree (ev_pairs fe cfg1 env1 ctx here1 l1 s k1) (ev_pairs fe cfg2 env2 ctx here2 l2 s k2).
+Proof.
+  induction l1 as [|p1 r1 IH]; intros [|p2 r2] E HP O1 O2 s k1 k2 Hk; try discriminate E.
+  - apply Hk.
+  - cbn [map] in E. injection E as Ex Er. rewrite !ev_pairs_cons.
+    destruct p1 as [| | | | | | | | | | | | | | | | | | | | |a1 kx1 vx1]; try apply ragree_stop_l.
+    destruct p2 as [| | | | | | | | | | | | | | | | | | | | |a2 kx2 vx2]; try discriminate Ex.
+    cbn [erase] in Ex. injection Ex as _ Ek Ev.
+    destruct (HP _ _ _ (or_introl eq_refl)) as [Pk Pv].
+    destruct (ok_pair_inv _ _ _ _ (O1 _ (or_introl eq_refl))) as [Ok1 Ov1].
+    destruct (ok_pair_inv _ _ _ _ (O2 _ (or_introl eq_refl))) as [Ok2 Ov2].
+    apply ragree_rbind; [apply (Pk _ Ek Ok1 Ok2)|]. intros vk s1.
+    apply ragree_rbind; [apply (Pv _ Ev Ov1 Ov2)|]. intros vv s2.
+    apply IH;
+      [exact Er | intros a k v Hin; apply (HP a k v); right; exact Hin | intros x Hx; apply O1; right; exact Hx
+      | intros x Hx; apply O2; right; exact Hx | intros kvs s'; apply Hk].
+Qed.
+
+(* one argument pair *)
+Lemma arg_pair x1 x2 : erase x1 = erase x2 -> P x1 ->
+  arg_valid x1 = true -> arg_valid x2 = true ->
+  Forall (site_ok fe env1) (sites x1) -> Forall (site_ok fe env2) (sites x2) ->
+  forall ctx s v1 s1 v2 s2, ev1 ctx x1 s = Done v1 s1 -> ev2 ctx x2 s = Done v2 s2 ->
+  s1 = s2 /\ (v1 = v2 \/ exists n1 n2, v1 = VNum n1 /\ v2 = VNum n2 /\ num_kind n1 <> num_kind n2 /\
+     (num_kind n1 <> KInt -> arg_class x1 = Some (num_kind n1)) /\
+     (num_kind n2 <> KInt -> arg_class x2 = Some (num_kind n2))).
+Proof.
+  intros E HP V1 V2 F1 F2 ctx s v1 s1 v2 s2 D1 D2.
+  destruct (wf x1 && wf x2) eqn:W.
+  - apply andb_prop in W. destruct W as [W1 W2].
+    destruct (HP x2 E (conj W1 F1) (conj W2 F2) ctx s _ _ _ _ D1 D2) as [Ev Es]. auto.
+  - assert (L1 : lit_shape x1 = true).
+    { apply andb_false_iff in W. destruct W as [W|W].
+      - apply not_wf_lit_shape; auto.
+      - rewrite <- lit_shape_erase, E, lit_shape_erase. apply not_wf_lit_shape; auto. }
+    assert (L2 : lit_shape x2 = true) by (rewrite <- lit_shape_erase, <- E, lit_shape_erase; exact L1).
+    destruct (class_uniform _ V1 L1) as (k1 & U1 & C1). destruct (class_uniform _ V2 L2) as (k2 & U2 & C2).
+    destruct (uniform_eval fe cfg1 env1 k1 x1 U1 _ _ _ _ D1) as [Es1 (n1 & Ev1 & Sh1)].
+    destruct (uniform_eval fe cfg2 env2 k2 x2 U2 _ _ _ _ D2) as [Es2 (n2 & Ev2 & Sh2)].
+    subst s1 s2 v1 v2. split; [reflexivity|].
+    apply num_shape_kind in Sh1. apply num_shape_kind in Sh2.
+    destruct (kind_eqb k1 k2) eqn:K.
+    + apply kind_eqb_eq in K. rewrite <- K in U2. left.
+      rewrite (uniform_same fe cfg1 env1 cfg2 env2 k1 x1 x2 E U1 U2 ctx s) in D1. rewrite D1 in D2. inversion D2. reflexivity.
+    + apply kind_eqb_neq in K. right. exists n1, n2. rewrite <- Sh1 in C1, K. rewrite <- Sh2 in C2, K. repeat split; auto.
+Qed.
+
+Lemma ev_args_agree (S1 S2 : nat -> kind -> Prop) ctx : forall l1 l2 i s k1 k2,
+  map erase l1 = map erase l2 ->
+  (forall x, In x l1 -> P x) ->
+  (forall x, In x l1 -> arg_valid x = true /\ Forall (site_ok fe env1) (sites x)) ->
+  (forall x, In x l2 -> arg_valid x = true /\ Forall (site_ok fe env2) (sites x)) ->
+  (forall j x k, nth_error l1 j = Some x -> arg_class x = Some k -> S1 (i + j)%nat k) ->
+  (forall j x k, nth_error l2 j = Some x -> arg_class x = Some k -> S2 (i + j)%nat k) ->
+  (forall vs1 vs2 s', vals_rel S1 S2 i vs1 vs2 -> ragree (k1 vs1 s') (k2 vs2 s')) ->
+  ragree (ev_list fe cfg1 env1 ctx l1 s k1) (ev_list fe cfg2 env2 ctx l2 s k2).
+Proof.
+  induction l1 as [|x1 r1 IH]; intros [|x2 r2] i s k1 k2 E HP V1 V2 H1 H2 Hk; try discriminate E.
+  - apply Hk. exact I.
+  - cbn [map] in E. injection E as Ex Er. rewrite !ev_list_cons.
+    apply ragree_rbind_rel with (R := nrel S1 S2 i).
+    + intros v1 s1 v2 s2 D1 D2.
+      destruct (V1 x1 (or_introl eq_refl)) as [Va1 Fa1]. destruct (V2 x2 (or_introl eq_refl)) as [Va2 Fa2].
+      destruct (arg_pair x1 x2 Ex (HP _ (or_introl eq_refl)) Va1 Va2 Fa1 Fa2 ctx s _ _ _ _ D1 D2)
+        as [Es [Ev|(n1 & n2 & Ev1 & Ev2 & Hne & C1 & C2)]].
+      * split; [exact Es|left; exact Ev].
+      * split; [exact Es|right]. exists n1, n2. repeat split; auto.
+        -- intros Hk1. specialize (H1 O x1 _ eq_refl (C1 Hk1)). rewrite Nat.add_0_r in H1. exact H1.
+        -- intros Hk2. specialize (H2 O x2 _ eq_refl (C2 Hk2)). rewrite Nat.add_0_r in H2. exact H2.
+    + intros v1 v2 s1 R. apply (IH r2 (S i));
+        [ exact Er | intros x Hx; apply HP; right; exact Hx | intros x Hx; apply V1; right; exact Hx
+        | intros x Hx; apply V2; right; exact Hx | | | ].
+      * intros j x k N C. specialize (H1 (S j) x k N C). replace (S i + j)%nat with (i + S j)%nat by lia. exact H1.
+      * intros j x k N C. specialize (H2 (S j) x k N C). replace (S i + j)%nat with (i + S j)%nat by lia. exact H2.
+      * intros vs1 vs2 s' Rr. apply Hk. cbn [vals_rel]. split; assumption.
+Qed.
+
+Lemma ok_function_inv env a name args fast : ok fe env (EFunction a name args fast) ->
+  (forall x, In x args -> arg_valid x = true /\ Forall (site_ok fe env) (sites x)) /\
+  Forall (site_ok fe env) (arg_sites false name args 0).
+Proof.
+  unfold ok. cbn [wf sites]. intros [W F]. rewrite Forall_app in F. destruct F as [Fa Ff]. split; [|exact Fa].
+  intros x Hx. split; [|eapply Forall_flat_map_in; eauto]. rewrite forallb_forall in W. apply (W x Hx).
+Qed.
+
+Lemma ok_method_inv env a x name args ns : ok fe env (EMethod a x name args ns) ->
+  ok fe env x /\
+  (forall y, In y args -> arg_valid y = true /\ Forall (site_ok fe env) (sites y)) /\
+  Forall (site_ok fe env) (arg_sites true name args 0).
+Proof.
+  unfold ok. cbn [wf sites]. intros [W F]. rewrite !Forall_app in F. destruct F as [Fx [Fa Ff]].
+  apply andb_prop in W. destruct W as [Wx W]. split; [auto|]. split; [|exact Fa].
+  intros y Hy. split; [|eapply Forall_flat_map_in; eauto]. rewrite forallb_forall in W. apply (W y Hy).
+Qed.
+
+Lemma ok_list_inv env (l : list expr) : forallb wf l = true -> Forall (site_ok fe env) (flat_map sites l) ->
+  forall x, In x l -> ok fe env x.
+Proof.
+  intros W F x Hx. split; [|eapply Forall_flat_map_in; eauto]. rewrite forallb_forall in W. auto.
+Qed.
+
+Ltac ok_inv H := unfold ok in H; cbn [wf sites opt_all opt_sites] in H; rewrite ?andb_true_iff, ?Forall_app in H.
+Ltac ok_solve := unfold ok; tauto.
+
+Theorem agree_all : forall n e1, (esize e1 < n)%nat -> P e1.
+Proof.
+  induction n as [|n IH]; intros e1 Hn; [lia|].
+  intros e2 E O1 O2. unfold same_shape in E.
+  destruct e1 as [a1|a1 nm1 ns1|a1 z1|a1 f1|a1 b1|a1 str1|a1 c1|a1 op1 x1|a1 op1 l1 r1|a1 re1 l1 r1|a1 x1 nm1 ns1|a1 x1 i1
+                 |a1 x1 f1 t1|a1 x1 nm1 args1 ns1|a1 nm1 args1 fast1|a1 b1 args1|a1 x1|a1|a1 c1 x1 y1|a1 es1|a1 ps1|a1 k1 v1];
+  destruct e2 as [a2|a2 nm2 ns2|a2 z2|a2 f2|a2 b2|a2 str2|a2 c2|a2 op2 x2|a2 op2 l2 r2|a2 re2 l2 r2|a2 x2 nm2 ns2|a2 x2 i2
+                 |a2 x2 f2 t2|a2 x2 nm2 args2 ns2|a2 nm2 args2 fast2|a2 b2 args2|a2 x2|a2|a2 c2 x2 y2|a2 es2|a2 ps2|a2 k2 v2];
+  cbn [erase] in E; try discriminate E; intros ctx s.
+  - (* nil *) exact (ragree_done VNil s).
+  - (* identifier *) injection E as _ En Ens. subst nm2 ns2. rewrite !ev_ident.
+    intros v1 s1 v2 s2 D1 D2.
+    destruct (fetch_ident cfg1 env1 nm1 ns1) as [w1|] eqn:F1; [|discriminate D1].
+    destruct (fetch_ident cfg2 env2 nm1 ns1) as [w2|] eqn:F2; [|discriminate D2].
+    cbn [lift] in D1, D2. inversion D1; inversion D2; subst. split; [eapply Hid; eauto|reflexivity].
+  - (* integer *) injection E as _ Ez. subst z2. rewrite !ev_int.
+    destruct O1 as [W1 _]. destruct O2 as [W2 _]. cbn [wf] in W1, W2. unfold plain_lit in W1, W2.
+    apply andb_prop in W1. destruct W1 as [K1 R1]. apply andb_prop in W2. destruct W2 as [K2 R2].
+    apply kind_eqb_eq in K1. apply kind_eqb_eq in K2.
+    rewrite (int_const_canon _ _ R1), (int_const_canon _ _ R2), K1, K2. apply ragree_refl.
+  - (* float *) injection E as _ Ef. subst f2. exact (ragree_done _ s).
+  - (* bool *) injection E as _ Eb. subst b2. exact (ragree_done _ s).
+  - (* string *) injection E as _ Es. subst str2. exact (ragree_done _ s).
+  - (* constant *) injection E as _ Ec. subst c2. exact (ragree_done _ s).
+  - (* unary *) injection E as _ Eo Ex. subst op2. ok_inv O1. ok_inv O2. rewrite !ev_unary.
+    apply ragree_rbind; [apply (IH x1 ltac:(cbn [esize] in Hn; lia) x2 Ex); ok_solve|].
+    intros v s1. destruct op1; ra.
+  - (* binary *) injection E as _ Eo El Er. subst op2. ok_inv O1. ok_inv O2. rewrite !ev_binary.
+    assert (Al : agree l1 l2) by (apply (IH l1 ltac:(cbn [esize] in Hn; lia) l2 El); ok_solve).
+    assert (Ar : agree r1 r2) by (apply (IH r1 ltac:(cbn [esize] in Hn; lia) r2 Er); ok_solve).
+    destruct (is_or op1); [|destruct (is_and op1)].
+    + apply ragree_rbind; [apply Al|]. intros va s1. apply ragree_lift. intros b. destruct b; [apply ragree_refl|apply Ar].
+    + apply ragree_rbind; [apply Al|]. intros va s1. apply ragree_lift. intros b. destruct b; [apply Ar|apply ragree_refl].
+    + apply ragree_rbind; [apply Al|]. intros va s1. apply ragree_rbind; [apply Ar|]. intros vb s2.
+      apply bin_strict_agree.
+  - (* matches *) injection E as _ Ere El Er. subst re2. ok_inv O1. ok_inv O2. rewrite !ev_matches.
+    assert (Al : agree l1 l2) by (apply (IH l1 ltac:(cbn [esize] in Hn; lia) l2 El); ok_solve).
+    assert (Ar : agree r1 r2) by (apply (IH r1 ltac:(cbn [esize] in Hn; lia) r2 Er); ok_solve).
+    destruct re1 as [p|].
+    + apply ragree_rbind; [apply Al|]. intros va s1. ra. destruct (re_match fe p a); ra.
+    + apply ragree_rbind; [apply Al|]. intros va s1. apply ragree_rbind; [apply Ar|]. intros vb s2. ra.
+      destruct (re_match fe a a0); ra.
+  - (* property *) injection E as _ Ex En Ens. subst nm2 ns2. ok_inv O1. ok_inv O2. rewrite !ev_property.
+    apply ragree_rbind; [apply (IH x1 ltac:(cbn [esize] in Hn; lia) x2 Ex); ok_solve|]. intros v s1. ra.
+  - (* index *) injection E as _ Ex Ei. ok_inv O1. ok_inv O2. rewrite !ev_index.
+    apply ragree_rbind; [apply (IH x1 ltac:(cbn [esize] in Hn; lia) x2 Ex); ok_solve|]. intros v s1.
+    apply ragree_rbind; [apply (IH i1 ltac:(cbn [esize] in Hn; lia) i2 Ei); ok_solve|]. intros vi s2. ra.
+  - (* slice *) injection E as _ Ex Ef Et. rewrite !ev_slice.
+    destruct f1 as [f1|], f2 as [f2|]; try discriminate Ef; destruct t1 as [t1|], t2 as [t2|]; try discriminate Et;
+      cbn [option_map] in Ef, Et; ok_inv O1; ok_inv O2;
+      (apply ragree_rbind; [apply (IH x1 ltac:(cbn [esize] in Hn; lia) x2 Ex); ok_solve|]); intros v s1.
+    + injection Ef as Ef. injection Et as Et.
+      apply ragree_rbind; [apply (IH t1 ltac:(cbn [esize] in Hn; lia) t2 Et); ok_solve|]. intros vt s2.
+      apply ragree_rbind; [apply (IH f1 ltac:(cbn [esize] in Hn; lia) f2 Ef); ok_solve|]. intros vf s3. ra.
+    + injection Ef as Ef.
+      apply ragree_rbind; [ra|]. intros vt s2.
+      apply ragree_rbind; [apply (IH f1 ltac:(cbn [esize] in Hn; lia) f2 Ef); ok_solve|]. intros vf s3. ra.
+    + injection Et as Et.
+      apply ragree_rbind; [apply (IH t1 ltac:(cbn [esize] in Hn; lia) t2 Et); ok_solve|]. intros vt s2.
+      apply ragree_rbind; [ra|]. intros vf s3. ra.
+    + apply ragree_rbind; [ra|]. intros vt s2. apply ragree_rbind; [ra|]. intros vf s3. ra.
+  - (* method *) injection E as _ Ex En Eargs Ens. subst nm2 ns2.
+    change (esize (EMethod a1 x1 nm1 args1 ns1)) with (S (esize x1 + lsize args1)) in Hn.
+    destruct (ok_method_inv _ _ _ _ _ _ O1) as (Ox1 & V1 & Sa1). destruct (ok_method_inv _ _ _ _ _ _ O2) as (Ox2 & V2 & Sa2).
+    rewrite !ev_method.
+    apply ragree_rbind; [apply (IH x1 ltac:(lia) x2 Ex); auto|]. intros v s1.
+    apply (ev_args_agree (fun j k => In (mkSite true nm1 j k) (arg_sites true nm1 args1 0))
+                         (fun j k => In (mkSite true nm1 j k) (arg_sites true nm1 args2 0)) ctx args1 args2 0%nat); auto.
+    + intros x Hx. apply IH. pose proof (lsize_in _ _ Hx). lia.
+    + intros j x k N C. apply (arg_sites_in true nm1 args1 0 j x k N C).
+    + intros j x k N C. apply (arg_sites_in true nm1 args2 0 j x k N C).
+    + intros vs1 vs2 s' R. apply method_match_agree. apply ragree_lift_eq. intros id F.
+      apply (call_agree fe _ _ _ _ _ _ _ _ _ _ _ _ Hfast R); [| |reflexivity].
+      * intros j k sg Hin Hsg. rewrite Forall_forall in Sa1.
+        apply (Sa1 _ Hin v id sg); [intros Hm; discriminate Hm|exact F|exact Hsg].
+      * intros j k sg Hin Hsg. rewrite Forall_forall in Sa2.
+        apply (Sa2 _ Hin v id sg); [intros Hm; discriminate Hm|exact F|exact Hsg].
+  - (* function *) injection E as _ En Eargs. subst nm2.
+    change (esize (EFunction a1 nm1 args1 fast1)) with (S (lsize args1)) in Hn.
+    destruct (ok_function_inv _ _ _ _ _ O1) as (V1 & Sa1). destruct (ok_function_inv _ _ _ _ _ O2) as (V2 & Sa2).
+    rewrite !ev_function.
+    apply (ev_args_agree (fun j k => In (mkSite false nm1 j k) (arg_sites false nm1 args1 0))
+                         (fun j k => In (mkSite false nm1 j k) (arg_sites false nm1 args2 0)) ctx args1 args2 0%nat); auto.
+    + intros x Hx. apply IH. pose proof (lsize_in _ _ Hx). lia.
+    + intros j x k N C. apply (arg_sites_in false nm1 args1 0 j x k N C).
+    + intros j x k N C. apply (arg_sites_in false nm1 args2 0 j x k N C).
+    + intros vs1 vs2 s' R w1 t1 w2 t2 D1 D2.
+      destruct (fetch_fn fe env1 nm1) as [id1|] eqn:F1; [|discriminate D1].
+      destruct (fetch_fn fe env2 nm1) as [id2|] eqn:F2; [|discriminate D2].
+      cbn [lift] in D1, D2. assert (Eid : id1 = id2) by (eapply Hfn; eauto). subst id2.
+      refine (call_agree fe _ _ _ _ _ _ _ _ _ _ _ _ Hfast R _ _ _ _ _ _ _ D1 D2).
+      * intros j k sg Hin Hsg. rewrite Forall_forall in Sa1.
+        apply (Sa1 _ Hin env1 id1 sg); [reflexivity|exact F1|exact Hsg].
+      * intros j k sg Hin Hsg. rewrite Forall_forall in Sa2.
+        apply (Sa2 _ Hin env2 id1 sg); [reflexivity|exact F2|exact Hsg].
+      * intros args. eapply Hrun; eauto.
+  - (* builtin *) injection E as _ Eb Eargs. subst b2.
+    change (esize (EBuiltin a1 b1 args1)) with (S (lsize args1)) in Hn.
+    destruct O1 as [W1 Fs1]. destruct O2 as [W2 Fs2]. cbn [wf sites] in W1, W2, Fs1, Fs2.
+    pose proof (ok_list_inv env1 _ W1 Fs1) as L1. pose proof (ok_list_inv env2 _ W2 Fs2) as L2.
+    rewrite !ev_builtin.
+    destruct args1 as [|x1 [|c1 [|d1 rest1]]]; destruct args2 as [|x2 [|c2 [|d2 rest2]]]; try discriminate Eargs;
+      cbn [map] in Eargs.
+    + destruct b1; apply ragree_stop_l.
+    + injection Eargs as Ex.
+      assert (Ax : agree x1 x2).
+      { apply (IH x1 ltac:(cbn [lsize] in Hn; lia) x2 Ex); [apply L1|apply L2]; left; reflexivity. }
+      destruct b1; try apply ragree_stop_l.
+      apply ragree_rbind; [apply Ax|]. intros v s1. ra.
+    + injection Eargs as Ex Ec.
+      assert (Ax : agree x1 x2).
+      { apply (IH x1 ltac:(cbn [lsize] in Hn; lia) x2 Ex); [apply L1|apply L2]; left; reflexivity. }
+      assert (Ac : agree c1 c2).
+      { apply (IH c1 ltac:(cbn [lsize] in Hn; lia) c2 Ec); [apply L1|apply L2]; right; left; reflexivity. }
+      destruct b1; cbv beta iota delta [is_loop_builtin]; try apply ragree_stop_l;
+        (apply ragree_rbind; [apply Ax|]); intros v s1; apply ragree_lift; intros len; cbv beta iota zeta delta [builtin_body].
+      * apply all_loop_agree. intros i s'. apply Ac.
+      * apply none_loop_agree. intros i s'. apply Ac.
+      * apply any_loop_agree. intros i s'. apply Ac.
+      * apply count_loop_agree; [intros i s'; apply Ac|]. intros cnt s'. ra.
+      * apply filter_loop_agree; [intros i s'; apply Ac|]. intros xs s'.
+        apply ragree_alloc; [exact Hlim|]. intros s''. ra.
+      * apply map_loop_agree; [intros i s'; apply Ac|]. intros xs s'.
+        apply ragree_alloc; [exact Hlim|]. intros s''. ra.
+      * apply count_loop_agree; [intros i s'; apply Ac|]. intros cnt s'. ra.
+    + destruct b1; apply ragree_stop_l.
+  - (* closure *) injection E as _ Ex. ok_inv O1. ok_inv O2. rewrite !ev_closure.
+    apply (IH x1 ltac:(cbn [esize] in Hn; lia) x2 Ex); ok_solve.
+  - (* pointer *) rewrite !ev_pointer. destruct ctx as [|[arr i] rest]; ra.
+  - (* conditional *) injection E as _ Ec Ex Ey. ok_inv O1. ok_inv O2. rewrite !ev_cond.
+    apply ragree_rbind; [apply (IH c1 ltac:(cbn [esize] in Hn; lia) c2 Ec); ok_solve|]. intros vc s1.
+    apply ragree_lift. intros b. destruct b.
+    + apply (IH x1 ltac:(cbn [esize] in Hn; lia) x2 Ex); ok_solve.
+    + apply (IH y1 ltac:(cbn [esize] in Hn; lia) y2 Ey); ok_solve.
+  - (* array *) injection E as _ Ees.
+    change (esize (EArray a1 es1)) with (S (lsize es1)) in Hn.
+    destruct O1 as [W1 Fs1]. destruct O2 as [W2 Fs2]. cbn [wf sites] in W1, W2, Fs1, Fs2.
+    rewrite !ev_array.
+    apply ev_list_agree; [exact Ees| |exact (ok_list_inv env1 _ W1 Fs1)|exact (ok_list_inv env2 _ W2 Fs2)|].
+    + intros x Hx. apply IH. pose proof (lsize_in _ _ Hx). lia.
+    + intros vs s'. apply ragree_alloc; [exact Hlim|]. intros s''. ra.
+  - (* map *) injection E as _ Eps.
+    change (esize (EMap a1 ps1)) with (S (lsize ps1)) in Hn.
+    destruct O1 as [W1 Fs1]. destruct O2 as [W2 Fs2]. cbn [wf sites] in W1, W2, Fs1, Fs2.
+    rewrite !ev_map.
+    apply ev_pairs_agree; [exact Eps| |exact (ok_list_inv env1 _ W1 Fs1)|exact (ok_list_inv env2 _ W2 Fs2)|].
+    + intros a k v Hin. pose proof (lsize_in _ _ Hin) as Hs. cbn [esize] in Hs. split; apply IH; lia.
+    + intros kvs s'. apply ragree_lift. intros skvs. apply ragree_alloc; [exact Hlim|]. intros s''. ra.
+  - (* pair *) rewrite !ev_pair. apply ragree_stop_l.
+Qed.
+
+Theorem modes_agree_gen e1 e2 ctx s v1 s1 v2 s2 :
+  same_shape e1 e2 -> ok fe env1 e1 -> ok fe env2 e2 ->
+  ev1 ctx e1 s = Done v1 s1 -> ev2 ctx e2 s = Done v2 s2 -> v1 = v2 /\ s1 = s2.
+Proof.
+  intros E O1 O2 D1 D2. exact (agree_all (S (esize e1)) e1 (Nat.lt_succ_diag_r _) e2 E O1 O2 ctx s _ _ _ _ D1 D2).
+Qed.
+End Agree.
+
+
+(* ================================================================== Part 7: the variants of the property *)
+
+(* (1) same environment value, same configuration: the trees differ in annotations and fast flags
+   (compiled with a declared environment type / without one / Eval) *)
+Theorem modes_agree fe cfg env ctx s e1 e2 v1 s1 v2 s2 :
+  fast_sound fe -> same_shape e1 e2 -> ok fe env e1 -> ok fe env e2 ->
+  eval fe cfg env ctx e1 s = Done v1 s1 -> eval fe cfg env ctx e2 s = Done v2 s2 -> v1 = v2 /\ s1 = s2.
+Proof.
+  intros HF. apply (modes_agree_gen fe cfg cfg env env); auto.
+  - intros name ns w1 w2 E1 E2. rewrite E1 in E2. inversion E2. reflexivity.
+  - intros name id1 id2 E1 E2. rewrite E1 in E2. inversion E2. reflexivity.
+Qed.
+
+(* (2) Env(map[string]interface{}): identifiers compiled to OpFetchMap (c_mapenv = true) against the
+   generic OpFetch (c_mapenv = false), on top of differing annotations *)
+Theorem modes_agree_mapenv fe limit m ctx s e1 e2 v1 s1 v2 s2 :
+  let env := VMap TString TIface m in
+  fast_sound fe -> same_shape e1 e2 -> ok fe env e1 -> ok fe env e2 ->
+  eval fe (mkCfg true limit) env ctx e1 s = Done v1 s1 ->
+  eval fe (mkCfg false limit) env ctx e2 s = Done v2 s2 -> v1 = v2 /\ s1 = s2.
+Proof.
+  intros env HF. apply (modes_agree_gen fe (mkCfg true limit) (mkCfg false limit) env env); auto.
+  - intros name ns w1 w2 E1 E2. unfold env in E1. rewrite fetch_map_generic in E1. fold env in E1.
+    rewrite E1 in E2. inversion E2. reflexivity.
+  - intros name id1 id2 E1 E2. rewrite E1 in E2. inversion E2. reflexivity.
+Qed.
+
+(* (3) the environment as a struct value against a pointer to it.  Hypotheses on the environment type:
+   the method set of *T contains that of T (same functions), no field is named like a method (both
+   are Go rules), and the functions do not observe whether they were fetched through the pointer *)
+Theorem modes_agree_struct_ptr fe cfg1 cfg2 n fields ctx s e1 e2 v1 s1 v2 s2 :
+  let env1 := VStruct n false fields in
+  let env2 := VStruct n true fields in
+  c_limit cfg1 = c_limit cfg2 -> c_mapenv cfg1 = c_mapenv cfg2 ->
+  (forall name id, fn_method fe n false name = Some id -> fn_method fe n true name = Some id) ->
+  (forall name id, fn_method fe n true name = Some id -> assoc_str name fields = None) ->
+  (forall id args, fn_run fe id env1 args = fn_run fe id env2 args) ->
+  fast_sound fe -> same_shape e1 e2 -> ok fe env1 e1 -> ok fe env2 e2 ->
+  eval fe cfg1 env1 ctx e1 s = Done v1 s1 -> eval fe cfg2 env2 ctx e2 s = Done v2 s2 -> v1 = v2 /\ s1 = s2.
+Proof.
+  intros env1 env2 Hl Hm Hsub Hdis Hrun HF. apply (modes_agree_gen fe cfg1 cfg2 env1 env2); auto.
+  - intros name ns w1 w2. unfold fetch_ident. rewrite Hm. destruct (c_mapenv cfg2); [discriminate|].
+    unfold env1, env2. rewrite fetch_struct_ptr. intros E1 E2. rewrite E1 in E2. inversion E2. reflexivity.
+  - intros name id1 id2. unfold env1, env2, fetch_fn. cbn [type_name_of].
+    destruct (fn_method fe n false name) as [m1|] eqn:M1.
+    + rewrite (Hsub _ _ M1). intros E1 E2. inversion E1; inversion E2; subst. reflexivity.
+    + destruct (fn_method fe n true name) as [m2|] eqn:M2.
+      * rewrite (Hdis _ _ M2). discriminate.
+      * intros E1 E2. rewrite E1 in E2. inversion E2. reflexivity.
+Qed.
+
+(* (4) the environment as a struct against a map[string]interface{} with the same members.
+   Hypotheses: no field is named like a method of the struct type (Go rule; a method is not a member of
+   the map, so such a call cannot succeed on both), and the functions held in fields do not observe
+   the value they were fetched from.  Either side may use OpFetchMap or OpFetch. *)
+Theorem modes_agree_struct_map fe cfg1 cfg2 n p fields ctx s e1 e2 v1 s1 v2 s2 :
+  let env1 := VStruct n p fields in
+  let env2 := VMap TString TIface (as_map fields) in
+  c_limit cfg1 = c_limit cfg2 ->
+  (forall name id, fn_method fe n p name = Some id -> assoc_str name fields = None) ->
+  (forall name id tf args, assoc_str name fields = Some (VFunc id tf) -> fn_run fe id env1 args = fn_run fe id env2 args) ->
+  fast_sound fe -> same_shape e1 e2 -> ok fe env1 e1 -> ok fe env2 e2 ->
+  eval fe cfg1 env1 ctx e1 s = Done v1 s1 -> eval fe cfg2 env2 ctx e2 s = Done v2 s2 -> v1 = v2 /\ s1 = s2.
+Proof.
+  intros env1 env2 Hl Hdis Hrun HF. apply (modes_agree_gen fe cfg1 cfg2 env1 env2); [exact Hl| | | |exact HF].
+  - intros name ns w1 w2. unfold fetch_ident, env1, env2.
+    destruct (c_mapenv cfg1); [discriminate|].
+    assert (G : forall b : bool,
+      (if b then Ok (match assoc_val (VStr name) (as_map fields) with Some v => v | None => VNil end)
+       else p_fetch (VMap TString TIface (as_map fields)) (VStr name) ns) =
+      Ok (match assoc_str name fields with Some v => v | None => VNil end)).
+    { intros b. cbn [p_fetch dyn_type assignable ty_eqb orb]. rewrite assoc_as_map.
+      destruct b; destruct (assoc_str name fields); reflexivity. }
+    rewrite G. cbn [p_fetch]. destruct (assoc_str name fields) as [w|].
+    + intros E1 E2. inversion E1; inversion E2; subst. reflexivity.
+    + destruct ns; [|discriminate]. intros E1 E2. inversion E1; inversion E2; subst. reflexivity.
+  - intros name id1 id2. unfold env1, env2, fetch_fn. cbn [type_name_of]. rewrite assoc_as_map.
+    destruct (fn_method fe n p name) as [m1|] eqn:M1.
+    + rewrite (Hdis _ _ M1). discriminate.
+    + destruct (assoc_str name fields) as [w|]; [|discriminate]. destruct w; try discriminate.
+      intros E1 E2. inversion E1; inversion E2; subst. reflexivity.
+  - intros name id args _. unfold env2, fetch_fn. cbn [type_name_of]. rewrite assoc_as_map.
+    destruct (assoc_str name fields) as [w|] eqn:A; [|discriminate]. destruct w; try discriminate.
+    intros E2. inversion E2; subst. eapply Hrun; eauto.
+Qed.
+
+(* corollary for identifiers: a member of the environment reads the same from all three shapes *)
+Corollary ident_env_shapes cfg n p fields name ns v :
+  c_mapenv cfg = false ->
+  fetch_ident cfg (VStruct n p fields) name ns = Ok v ->
+  fetch_ident cfg (VStruct n (negb p) fields) name ns = Ok v /\
+  (forall b limit, fetch_ident (mkCfg b limit) (VMap TString TIface (as_map fields)) name ns = Ok v).
+Proof.
+  unfold fetch_ident. intros -> H. split; [exact H|]. intros b limit. cbn [c_mapenv].
+  cbn [p_fetch dyn_type assignable ty_eqb orb] in *. rewrite assoc_as_map.
+  destruct (assoc_str name fields) as [w|].
+  - inversion H; subst. destruct b; reflexivity.
+  - destruct ns; [|discriminate]. inversion H; subst. destruct b; reflexivity.
+Qed.
+
+(* ================================================================== Part 8: the harness universe; refutation *)
+Lemma u_fenv_fast_sound re pw : fast_sound (u_fenv re pw).
+Proof.
+  intros id sg. cbn [fn_sig u_fenv]. unfold u_sig.
+  repeat match goal with |- context[String.eqb id ?x] => destruct (String.eqb id x) end;
+    intros H; inversion H; subst; cbn [s_fast s_ins s_variadic]; intros F; try discriminate F; auto.
+Qed.
+
+Lemma u_run_struct_ptr id n fields args :
+  u_run id (VStruct n false fields) args = u_run id (VStruct n true fields) args.
+Proof. reflexivity. Qed.
+
+(* Env{I: 1, Y: 0.0, Half: func(float64) float64, Fast: func(...interface{}) interface{}} *)
+Definition env_demo : value :=
+  VStruct "Env" false
+    [("I", vint 1); ("Y", VNum (NFlt KF64 0%float));
+     ("Half", VFunc "Half" (TFunc [TNum KF64] false [TNum KF64]));
+     ("Fast", VFunc "Fast" (TFunc [TSlice TIface] true [TIface]))]%string.
+
+Definition fe_demo : fenv := u_fenv [] [].
+
+Lemma half_site_ok i : i = O -> site_ok fe_demo env_demo (mkSite false "Half" i KF64).
+Proof.
+  intros -> recv id sg Hr F Sg. cbn [st_method st_name st_pos st_kind] in *. rewrite (Hr eq_refl) in F.
+  vm_compute in F. inversion F; subst id. vm_compute in Sg. inversion Sg; subst sg. reflexivity.
+Qed.
+
+(* `Half(I / 2 + Y)`: the checker retypes the literal 2 to float64 although the argument has other leaves *)
+Definition witness (k : rkind) : expr :=
+  EFunction ann0 "Half"
+    [EBinary ann0 BAdd (EBinary ann0 BDiv (EIdent ann0 "I" false) (EInt (mkAnn noloc k) 2)) (EIdent ann0 "Y" false)] false.
+
+Theorem modes_agree_refuted : ~ modes_agree_full_statement.
+Proof.
+  intros H.
+  assert (O : forall k, k = RKNum KF64 \/ k = RKInvalid -> ok_full fe_demo env_demo (witness k)).
+  { intros k [->| ->]; (split; [reflexivity|]).
+    - change (sites_full (witness (RKNum KF64))) with [mkSite false "Half" 0 KF64].
+      constructor; [apply half_site_ok; reflexivity|constructor].
+    - change (sites_full (witness RKInvalid)) with (@nil site). constructor. }
+  destruct (H fe_demo (mkCfg false 1000) env_demo [] rs0 (witness (RKNum KF64)) (witness RKInvalid)
+              (VNum (NFlt KF64 0.25%float)) (mkRS 0 [("Half"%string, [VNum (NFlt KF64 0.5%float)])])
+              (VNum (NFlt KF64 0%float)) (mkRS 0 [("Half"%string, [VNum (NFlt KF64 0%float)])])
+              (u_fenv_fast_sound _ _) eq_refl (O _ (or_introl eq_refl)) (O _ (or_intror eq_refl))) as [Hv _].
+  - vm_compute. reflexivity.
+  - vm_compute. reflexivity.
+  - apply (f_equal (fun v => match v with VNum (NFlt _ f) => PrimFloat.eqb f 0%float | _ => true end)) in Hv.
+    vm_compute in Hv. discriminate Hv.
+Qed.
+
+
+(* ================================================================== Part 9: the carve-out is a restriction of the full statement *)
+(* on a literal-only tree of kind k, wf_full in mode m just compares k with the kind of the mode *)
+Lemma uniform_wf_full k : forall x, uniform k x = true ->
+  forall m, wf_full m x = kind_eqb k (match m with Some k' => k' | None => KInt end).
+Proof.
+  induction x as [| |a z| | | | |a op x IHx|a op l IHl r IHr| | | | | | | | | | | | | ]; intros U; try discriminate U; intros m; cbn [uniform wf_full] in *.
+  - apply andb_prop in U. destruct U as [K R]. apply kind_eqb_eq in K. rewrite K, R. apply andb_true_r.
+  - apply andb_prop in U. destruct U as [O U]. rewrite O. auto.
+  - apply andb_prop in U. destruct U as [U Ur]. apply andb_prop in U. destruct U as [O Ul]. rewrite O.
+    rewrite IHl, IHr by auto. apply andb_diag.
+Qed.
+
+Lemma uniform_sites_full k : forall x, uniform k x = true -> sites_full x = sites x.
+Proof.
+  induction x as [| |a z| | | | |a op x IHx|a op l IHl r IHr| | | | | | | | | | | | | ]; intros U; try discriminate U; cbn [uniform sites sites_full] in *.
+  - reflexivity.
+  - apply andb_prop in U. destruct U as [_ U]. auto.
+  - apply andb_prop in U. destruct U as [U Ur]. apply andb_prop in U. destruct U as [_ Ul].
+    rewrite IHl, IHr by auto. reflexivity.
+Qed.
+
+Lemma arg_class_full_eq x : arg_valid x = true -> wf_full None x = wf x -> arg_class_full x = arg_class x.
+Proof.
+  unfold arg_valid, arg_class_full, arg_class. intros V W. rewrite W. destruct (wf x) eqn:Wx; [reflexivity|].
+  cbn [orb] in V. destruct (retyped_kind x) as [k|] eqn:R; [|discriminate].
+  destruct (retyped_kind_inv _ _ R) as [Hk U].
+  unfold retype_kinds. cbn [find]. rewrite !(uniform_wf_full _ _ U).
+  destruct k; try reflexivity. contradiction.
+Qed.
+
+Lemma expr_size_ind (Q : expr -> Prop) :
+  (forall e, (forall e', (esize e' < esize e)%nat -> Q e') -> Q e) -> forall e, Q e.
+Proof.
+  intros H e. remember (esize e) as n eqn:En. revert e En.
+  induction n as [n IH] using lt_wf_ind. intros e ->. apply H. intros e' Hlt. eapply IH; [exact Hlt|reflexivity].
+Qed.
+
+Definition full_same (e : expr) : Prop := wf e = true -> wf_full None e = true /\ sites_full e = sites e.
+
+Lemma full_same_list l : (forall x, In x l -> full_same x) -> forallb wf l = true ->
+  forallb (wf_full None) l = true /\ flat_map sites_full l = flat_map sites l.
+Proof.
+  induction l as [|x r IH]; intros H W; [auto|]. cbn [forallb flat_map] in *. apply andb_prop in W. destruct W as [Wx Wr].
+  destruct (H x (or_introl eq_refl) Wx) as [A B]. destruct (IH (fun y Hy => H y (or_intror Hy)) Wr) as [C D].
+  rewrite A, B, C, D. auto.
+Qed.
+
+Lemma retyped_in_kinds k : k <> KInt -> In k retype_kinds.
+Proof. intros H. destruct k; cbn; auto 12. contradiction. Qed.
+
+Lemma full_same_args m name l : (forall x, In x l -> full_same x) ->
+  forallb (fun y => wf y || is_some (retyped_kind y)) l = true ->
+  forallb (fun y => wf_full None y || existsb (fun k => wf_full (Some k) y) retype_kinds) l = true /\
+  (forall i, arg_sites_full m name l i = arg_sites m name l i) /\
+  flat_map sites_full l = flat_map sites l.
+Proof.
+  induction l as [|x r IH]; intros H W; [auto|]. cbn [forallb flat_map arg_sites arg_sites_full] in *.
+  apply andb_prop in W. destruct W as [Vx Wr].
+  destruct (IH (fun y Hy => H y (or_intror Hy)) Wr) as (C & D & F).
+  assert (X : (wf_full None x || existsb (fun k => wf_full (Some k) x) retype_kinds = true) /\
+              wf_full None x = wf x /\ sites_full x = sites x).
+  { destruct (wf x) eqn:Wx.
+    - destruct (H x (or_introl eq_refl) Wx) as [A B]. rewrite A. auto.
+    - cbn [orb] in Vx. destruct (retyped_kind x) as [k|] eqn:R; [|discriminate].
+      destruct (retyped_kind_inv _ _ R) as [Hk U].
+      assert (N : wf_full None x = false).
+      { rewrite (uniform_wf_full _ _ U). apply kind_eqb_neq. exact Hk. }
+      rewrite N. cbn [orb]. repeat split.
+      + apply existsb_exists. exists k. split; [apply retyped_in_kinds; exact Hk|].
+        rewrite (uniform_wf_full _ _ U). apply kind_eqb_refl.
+      + apply (uniform_sites_full _ _ U). }
+  destruct X as (X1 & X2 & X3). rewrite X1, C, X3, F. repeat split.
+  intros i. rewrite D. rewrite (arg_class_full_eq x); [reflexivity| |exact X2].
+  unfold arg_valid. exact Vx.
+Qed.
+
+Lemma wf_full_same : forall e, full_same e.
+Proof.
+  induction e as [e IH] using expr_size_ind. unfold full_same in *. intros W.
+  destruct e as [a|a nm ns|a z|a f|a b|a str|a c|a op x|a op l r|a re l r|a x nm ns|a x i|a x from to
+                |a x nm args ns|a nm args fast|a b args|a x|a|a c x y|a es|a ps|a k v];
+    cbn [wf wf_full sites sites_full opt_all opt_sites] in *; try (split; reflexivity).
+  - (* integer *) split; [exact W|reflexivity].
+  - (* unary *) destruct (IH x ltac:(cbn [esize]; lia) W) as [A B]. destruct (arith_un op); auto.
+  - (* binary *) apply andb_prop in W. destruct W as [W1 W2].
+    destruct (IH l ltac:(cbn [esize]; lia) W1) as [A1 B1]. destruct (IH r ltac:(cbn [esize]; lia) W2) as [A2 B2].
+    destruct (arith_bin op); rewrite A1, A2, B1, B2; auto.
+  - (* matches *) apply andb_prop in W. destruct W as [W1 W2].
+    destruct (IH l ltac:(cbn [esize]; lia) W1) as [A1 B1]. destruct (IH r ltac:(cbn [esize]; lia) W2) as [A2 B2].
+    rewrite A1, A2, B1, B2; auto.
+  - (* property *) apply (IH x ltac:(cbn [esize]; lia) W).
+  - (* index *) apply andb_prop in W. destruct W as [W1 W2].
+    destruct (IH x ltac:(cbn [esize]; lia) W1) as [A1 B1]. destruct (IH i ltac:(cbn [esize]; lia) W2) as [A2 B2].
+    rewrite A1, A2, B1, B2; auto.
+  - (* slice *) apply andb_prop in W. destruct W as [W Wt]. apply andb_prop in W. destruct W as [Wx Wf].
+    destruct (IH x ltac:(cbn [esize]; lia) Wx) as [A B]. rewrite A, B.
+    assert (F : opt_all (wf_full None) from = true /\ opt_sites sites_full from = opt_sites sites from).
+    { destruct from as [f|]; cbn [opt_all opt_sites] in *; [|auto]. apply (IH f ltac:(cbn [esize]; lia) Wf). }
+    assert (T : opt_all (wf_full None) to = true /\ opt_sites sites_full to = opt_sites sites to).
+    { destruct to as [t|]; cbn [opt_all opt_sites] in *; [|auto]. apply (IH t ltac:(cbn [esize]; lia) Wt). }
+    destruct F as [F1 F2]. destruct T as [T1 T2]. rewrite F1, F2, T1, T2. auto.
+  - (* method *) apply andb_prop in W. destruct W as [Wx Wa].
+    destruct (IH x ltac:(cbn [esize]; lia) Wx) as [A B].
+    destruct (full_same_args true nm args) as (C & D & F); [|exact Wa|].
+    + intros y Hy; unfold full_same; intros Wy; apply IH; [|exact Wy]. change (esize (EMethod a x nm args ns)) with (S (esize x + lsize args)).
+      pose proof (lsize_in _ _ Hy). lia.
+    + rewrite A, B, C, D, F. auto.
+  - (* function *)
+    destruct (full_same_args false nm args) as (C & D & F); [|exact W|].
+    + intros y Hy; unfold full_same; intros Wy; apply IH; [|exact Wy]. change (esize (EFunction a nm args fast)) with (S (lsize args)).
+      pose proof (lsize_in _ _ Hy). lia.
+    + rewrite C, D, F. auto.
+  - (* builtin *) apply full_same_list; [|exact W]. intros y Hy; unfold full_same; intros Wy; apply IH; [|exact Wy].
+    change (esize (EBuiltin a b args)) with (S (lsize args)). pose proof (lsize_in _ _ Hy). lia.
+  - (* closure *) apply (IH x ltac:(cbn [esize]; lia) W).
+  - (* conditional *) apply andb_prop in W. destruct W as [W W3]. apply andb_prop in W. destruct W as [W1 W2].
+    destruct (IH c ltac:(cbn [esize]; lia) W1) as [A1 B1]. destruct (IH x ltac:(cbn [esize]; lia) W2) as [A2 B2].
+    destruct (IH y ltac:(cbn [esize]; lia) W3) as [A3 B3]. rewrite A1, A2, A3, B1, B2, B3. auto.
+  - (* array *) apply full_same_list; [|exact W]. intros y Hy; unfold full_same; intros Wy; apply IH; [|exact Wy].
+    change (esize (EArray a es)) with (S (lsize es)). pose proof (lsize_in _ _ Hy). lia.
+  - (* map *) apply full_same_list; [|exact W]. intros y Hy; unfold full_same; intros Wy; apply IH; [|exact Wy].
+    change (esize (EMap a ps)) with (S (lsize ps)). pose proof (lsize_in _ _ Hy). lia.
+  - (* pair *) apply andb_prop in W. destruct W as [W1 W2].
+    destruct (IH k ltac:(cbn [esize]; lia) W1) as [A1 B1]. destruct (IH v ltac:(cbn [esize]; lia) W2) as [A2 B2].
+    rewrite A1, A2, B1, B2; auto.
+Qed.
+
+(* ok = ok_full + the decidable carve-out wf *)
+Lemma ok_iff_ok_full_wf fe env e : ok fe env e <-> (ok_full fe env e /\ wf e = true).
+Proof.
+  unfold ok, ok_full. split.
+  - intros [W F]. destruct (wf_full_same e W) as [A B]. rewrite A, B. auto.
+  - intros [[_ F] W]. destruct (wf_full_same e W) as [A B]. rewrite B in F. auto.
+Qed.
+
+(* the full statement restricted by the decidable carve-out `wf` on both trees *)
+Theorem modes_agree_partial fe cfg env ctx s e1 e2 v1 s1 v2 s2 :
+  fast_sound fe -> same_shape e1 e2 -> ok_full fe env e1 -> ok_full fe env e2 ->
+  wf e1 = true -> wf e2 = true ->
+  eval fe cfg env ctx e1 s = Done v1 s1 -> eval fe cfg env ctx e2 s = Done v2 s2 -> v1 = v2 /\ s1 = s2.
+Proof.
+  intros HF E O1 O2 W1 W2. apply (modes_agree fe cfg env ctx s e1 e2); auto; apply ok_iff_ok_full_wf; auto.
+Qed.
+
+
+(* ================================================================== Part 10: a non-trivial instance *)
+(* all([1, 2], # == 1 || Half(1 + 2) > 1.0) && Fast(I, "a") == 2
+   typed = true : literals annotated int, `# == 1` specialised (OpEqualInt), Fast called with OpCallFast
+   typed = false: literals unannotated, generic ==, generic call
+   in both, the literals of the argument of Half are retyped to float64 (the call fails otherwise) *)
+Definition ex_tree (typed : bool) : expr :=
+  let ai := if typed then mkAnn noloc (RKNum KInt) else ann0 in
+  let af := mkAnn noloc (RKNum KF64) in
+  EBinary ann0 BAndAnd
+    (EBuiltin ann0 BiAll
+       [EArray ann0 [EInt ai 1; EInt ai 2];
+        EClosure ann0
+          (EBinary ann0 BOrOr
+             (EBinary ann0 BEq (EPointer ai) (EInt ai 1))
+             (EBinary ann0 BGt
+                (EFunction ann0 "Half" [EBinary af BAdd (EInt af 1) (EInt af 2)] false)
+                (EFloat ann0 1%float)))])
+    (EBinary ann0 BEq (EFunction ann0 "Fast" [EIdent ai "I" false; EStr ann0 "a"] typed) (EInt ai 2)).
+
+Definition cfg_demo : config := mkCfg false 1000.
+
+Lemma ex_tree_ok typed : ok fe_demo env_demo (ex_tree typed).
+Proof.
+  split; [destruct typed; reflexivity|].
+  assert (E : sites (ex_tree typed) = [mkSite false "Half" 0 KF64]) by (destruct typed; reflexivity).
+  rewrite E. constructor; [apply half_site_ok; reflexivity|constructor].
+Qed.
+
+Lemma ex_tree_same : same_shape (ex_tree true) (ex_tree false).
+Proof. reflexivity. Qed.
+
+Lemma ex_tree_differ : ex_tree true <> ex_tree false.
+Proof. intros H. discriminate H. Qed.
+
+Definition ex_result : result :=
+  Done (VBool true)
+       (mkRS 2 [("Half"%string, [VNum (NFlt KF64 3%float)]); ("Fast"%string, [vint 1; VStr "a"])]).
+
+Lemma ex_tree_runs typed : eval fe_demo cfg_demo env_demo [] (ex_tree typed) rs0 = ex_result.
+Proof. destruct typed; vm_compute; reflexivity. Qed.
+
+(* the same members as a pointer and as a map: the hypotheses of the environment-shape theorems hold *)
+Definition fields_demo : list (string * value) :=
+  match env_demo with VStruct _ _ fields => fields | _ => [] end.
+Definition env_demo_ptr : value := VStruct "Env" true fields_demo.
+Definition env_demo_map : value := VMap TString TIface (as_map fields_demo).
+
+Lemma half_site_ok_env env : env = env_demo_ptr \/ env = env_demo_map -> site_ok fe_demo env (mkSite false "Half" 0 KF64).
+Proof.
+  intros He recv id sg Hr F Sg. cbn [st_method st_name st_pos st_kind] in *. rewrite (Hr eq_refl) in F.
+  assert (Eid : id = "Half"%string) by (destruct He as [->| ->]; vm_compute in F; inversion F; reflexivity).
+  subst id. vm_compute in Sg. inversion Sg; subst sg. reflexivity.
+Qed.
+
+Lemma ex_tree_ok_env env typed : env = env_demo_ptr \/ env = env_demo_map -> ok fe_demo env (ex_tree typed).
+Proof.
+  intros He. split; [destruct typed; reflexivity|].
+  assert (E : sites (ex_tree typed) = [mkSite false "Half" 0 KF64]) by (destruct typed; reflexivity).
+  rewrite E. constructor; [apply half_site_ok_env; exact He|constructor].
+Qed.
+
+Lemma demo_methods_sub name id : fn_method fe_demo "Env" false name = Some id -> fn_method fe_demo "Env" true name = Some id.
+Proof.
+  cbn [fn_method fe_demo u_fenv]. unfold u_method. cbn [String.eqb Ascii.eqb Bool.eqb andb].
+  destruct (String.eqb name "Twice"); [auto|]. destruct (String.eqb name "PtrM"); discriminate.
+Qed.
+
+Lemma demo_methods_disjoint p name id : fn_method fe_demo "Env" p name = Some id -> assoc_str name fields_demo = None.
+Proof.
+  cbn [fn_method fe_demo u_fenv]. unfold u_method. cbn [String.eqb Ascii.eqb Bool.eqb andb].
+  destruct (String.eqb name "Twice") eqn:E1.
+  - apply String.eqb_eq in E1. subst name. reflexivity.
+  - destruct (String.eqb name "PtrM") eqn:E2; [|discriminate].
+    apply String.eqb_eq in E2. subst name. reflexivity.
+Qed.
+
+Lemma demo_run_fields name id tf args :
+  assoc_str name fields_demo = Some (VFunc id tf) -> fn_run fe_demo id env_demo args = fn_run fe_demo id env_demo_map args.
+Proof.
+  unfold fields_demo, env_demo. cbn [assoc_str].
+  repeat match goal with |- context[String.eqb ?k name] => destruct (String.eqb k name) end;
+    intros H; inversion H; subst; reflexivity.
+Qed.
+
+Lemma ex_tree_runs_ptr typed : eval fe_demo cfg_demo env_demo_ptr [] (ex_tree typed) rs0 = ex_result.
+Proof. destruct typed; vm_compute; reflexivity. Qed.
+
+Lemma ex_tree_runs_map typed (mapenv : bool) :
+  eval fe_demo (mkCfg mapenv 1000) env_demo_map [] (ex_tree typed) rs0 = ex_result.
+Proof. destruct typed, mapenv; vm_compute; reflexivity. Qed.
